@@ -64,9 +64,16 @@ func run(c *mon.Case) {
 			}
 		}
 		src := refir.String(e)
+		own := refir.Clone(e) // the oracle evaluates a private copy
 		c.Eval(1)
 		var alts []expr.Expr
 		p, val, stack := mon.Try(func() { alts = exprtransform.Possibilities(e) })
+		if !p {
+			if now := refir.String(e); now != src {
+				c.Fail("C13.input-mutated", nil, "Possibilities changed its argument: %s -> %s", clip(src), clip(now))
+				continue
+			}
+		}
 		if p {
 			c.Fail("C13.panic", map[string]string{"site": mon.PanicSite(stack)}, "Possibilities(%s) panicked: %v\n%s", clip(src), val, stack)
 			continue
@@ -92,7 +99,7 @@ func run(c *mon.Case) {
 			continue
 		}
 		for i, env := range refir.Envs(uint64(c.Idx)*8+uint64(sub)+uint64(c.Seed)<<20, 6) {
-			want := refir.Eval(e, env)
+			want := refir.Eval(own, env)
 			found := false
 			for _, a := range alts {
 				if refir.Eval(a, env).Cmp(want) == 0 {
